@@ -1197,7 +1197,10 @@ func (in *Interp) execRange(st *State, x *ast.RangeStmt) (*State, bool) {
 	if sv, ok := lv.(SliceV); ok && sv.Path == "" && sv.Base == "" && len(sv.Elems) > 0 && len(sv.Elems) <= 64 {
 		allPtr := true
 		for _, e := range sv.Elems {
-			if _, isPtr := e.(PtrV); !isPtr {
+			switch e.(type) {
+			case PtrV, IntV:
+				// pointers to fields, or the fields' values themselves ([8]uint32{p.Config, p.State, …})
+			default:
 				allPtr = false
 			}
 		}
@@ -1665,6 +1668,19 @@ func (in *Interp) execFor(st *State, x *ast.ForStmt, label string) (*State, bool
 		st.vars[fv] = st.fields[path]
 		ints[fv] = true
 	}
+	// a byte-slice variable that the loop re-slices (rest = rest[n:]) walks the input by its view offset:
+	// the offset takes part as a loop-carried variable too
+	liftedBuf := map[types.Object]types.Object{} // synthetic offset variable → the slice variable
+	for o := range others {
+		if bv, ok := st.vars[o].(BufV); ok && bv.Off != nil {
+			if b := st.bufs[bv.ID]; b != nil && b.Origin == "param" {
+				fv := in.synthFieldVar("view:"+o.Name()+fmt.Sprint(o.Pos()), nil)
+				liftedBuf[fv] = o
+				st.vars[fv] = IntV{bv.Off}
+				ints[fv] = true
+			}
+		}
+	}
 	savedLift := in.liftedPaths
 	in.liftedPaths = map[string]types.Object{}
 	for fv, p := range lifted {
@@ -1680,6 +1696,13 @@ func (in *Interp) execFor(st *State, x *ast.ForStmt, label string) (*State, bool
 				s.vars[fv] = v
 			}
 		}
+		for fv, o := range liftedBuf {
+			if bv, ok := s.vars[o].(BufV); ok && bv.Off != nil {
+				s.vars[fv] = IntV{bv.Off}
+			} else {
+				delete(s.vars, fv)
+			}
+		}
 	}
 	body := st.clone()
 	syms := map[types.Object]*Term{}
@@ -1690,6 +1713,11 @@ func (in *Interp) execFor(st *State, x *ast.ForStmt, label string) (*State, bool
 			body.vars[o] = IntV{s}
 			if p, isField := lifted[o]; isField {
 				body.fields[p] = IntV{s}
+			}
+			if bo, isView := liftedBuf[o]; isView {
+				if bv, ok := body.vars[bo].(BufV); ok {
+					body.vars[bo] = BufV{ID: bv.ID, Off: s, Hi: bv.Hi}
+				}
 			}
 			// a loop-carried cursor keeps the lower bound it had on entry if it only grows;
 			// recorded as a fact after the body is known (see below)
@@ -1982,6 +2010,16 @@ func (in *Interp) execFor(st *State, x *ast.ForStmt, label string) (*State, bool
 					return
 				}
 				isCursor := in.cursorObjOf(body, small) == o
+				// `len(rest) > 0`, `k <= len(rest)`: the view's offset is bounded by the end of the input
+				if bo, isView := liftedBuf[o]; isView && !isCursor {
+					if c, ok := unparen(big).(*ast.CallExpr); ok && len(c.Args) == 1 {
+						if id, ok := unparen(c.Fun).(*ast.Ident); ok && id.Name == "len" && identObjOf(in, c.Args[0]) == bo {
+							if _, isC := constIntOf(in.info, small); isC {
+								cp.Bound = "loop condition " + in.render(nil, be)
+							}
+						}
+					}
+				}
 				if !isCursor {
 					if ad, ok := unparen(small).(*ast.BinaryExpr); ok && ad.Op == token.ADD {
 						if c, isC := constIntOf(in.info, ad.Y); isC && c >= 0 && in.cursorObjOf(body, ad.X) == o {
@@ -2160,6 +2198,15 @@ func (in *Interp) execFor(st *State, x *ast.ForStmt, label string) (*State, bool
 	for fv, p := range lifted {
 		if v, ok := res.vars[fv]; ok {
 			res.fields[p] = v
+		}
+		delete(res.vars, fv)
+		delete(st.vars, fv)
+	}
+	for fv, o := range liftedBuf {
+		if iv, ok := res.vars[fv].(IntV); ok {
+			if bv, ok := res.vars[o].(BufV); ok {
+				res.vars[o] = BufV{ID: bv.ID, Off: iv.T, Hi: bv.Hi}
+			}
 		}
 		delete(res.vars, fv)
 		delete(st.vars, fv)
